@@ -46,6 +46,15 @@ func (t *TagSet) Reverse() {
 
 // LimitTagSets returns a tag set list with SLIMIT and SOFFSET applied.
 func LimitTagSets(a []*TagSet, slimit, soffset int) []*TagSet {
+	// Negative values carry no meaning (they can only come from a malformed
+	// remote request); treat them as absent instead of slicing out of range.
+	if slimit < 0 {
+		slimit = 0
+	}
+	if soffset < 0 {
+		soffset = 0
+	}
+
 	// Ignore if no limit or offset is specified.
 	if slimit == 0 && soffset == 0 {
 		return a
